@@ -149,7 +149,12 @@ func totalityCheck(data []byte, forced []formats.Format, budget time.Duration) *
 	for _, f := range forced {
 		f := f
 		if o := run("Reader.ParseStreamWithOptions("+string(f)+")", func() (*sbom.Document, formats.Format, error, bool) {
-			d, err := reader.New().ParseStreamWithOptions(bytes.NewReader(data), &reader.Options{Format: f})
+			// (the reader's own default options with the format stated: an option set missing a group may be refused
+			// before any parser runs)
+			rd := reader.New()
+			o := *rd.Options
+			o.Format = f
+			d, err := rd.ParseStreamWithOptions(bytes.NewReader(data), &o)
 			return d, "", err, false
 		}); o != nil {
 			return o
